@@ -233,10 +233,7 @@ fn judge_value(what: &str, info: bool, orig: &OV, expect: &OV, e: &R<OV>, l: &R<
         return Ok(());
     }
     let detail = format!("value={} text={text} eager={} lazy={}", spec(orig), rs(e, spec), rs(l, spec));
-    if has_reserved_char(info, orig) && lok && !eok {
-        // cause re-derived from the input: a Character the writer percent-encodes
-        return Err((format!("{what}-char-reserved-eager-not-decoded"), detail));
-    }
+    let _ = info;
     let side = if !eok && !lok { "both" } else if !eok { "eager" } else { "lazy" };
     Err((format!("{what}-{}-roundtrip-{side}", vkind(orig)), detail))
 }
@@ -376,21 +373,13 @@ fn run_smp(c: &Case) -> Obs {
             expect.clear(); // a sample that is "." as a whole reads back as no values
         }
         let detail = format!("vals={} text={col} eager={} lazy={}", c.args[2], rs(&e, |v| specs(v)), rs(&l, |v| specs(v)));
-        if vals.is_empty() {
-            // the reader's own representation of a "." sample
-            let eok = matches!(&e, R::Ok(x) if x.is_empty());
-            return if eok { Ok(()) } else { Err(("sample-no-values-written-empty".into(), detail)) };
-        }
         let eok = matches!(&e, R::Ok(x) if *x == expect);
         let lok = matches!(&l, R::Ok(x) if *x == expect);
         if eok && lok {
             return Ok(());
         }
-        if vals.iter().any(|v| has_reserved_char(false, v)) && lok && !eok {
-            return Err(("sample-char-reserved-eager-not-decoded".into(), detail));
-        }
         // which value?
-        let bad = vals.iter().find(|v| !matches!(v, None)).map(vkind).unwrap_or("missing");
+        let bad = vals.iter().find(|v| !matches!(v, None)).map(vkind).unwrap_or(if vals.is_empty() { "novalues" } else { "missing" });
         let side = if !eok && !lok { "both" } else if !eok { "eager" } else { "lazy" };
         Err((format!("sample-{bad}-roundtrip-{side}"), detail))
     })();
